@@ -132,10 +132,11 @@ fn c08_tamper() -> R {
     let bc_envelope::base::envelope::EnvelopeCase::Encrypted(m) = xs.case() else { return rt::viol("subject not encrypted", "") };
     let (mut ct, mut aad, mut nonce, mut auth) = (m.ciphertext().clone(), m.aad().clone(), m.nonce().data().to_vec(), m.authentication_tag().data().to_vec());
     let field = choice(4);
-    let which = choice(4);
-    let flip = |v: &mut Vec<u8>| { let n = v.len(); let idx = [0, n / 2, n - 1, n - 1][which]; let bit = [0x01u8, 0x80, 0x01, 0x80][which]; v[idx] ^= bit; };
-    match field { 0 => flip(&mut ct), 1 => flip(&mut aad), 2 => flip(&mut nonce), _ => flip(&mut auth) }
-    rt::note(format!("field {} variant {}", ["ciphertext", "aad(declared digest)", "nonce", "auth tag"][field], which));
+    let flen = [ct.len(), aad.len(), nonce.len(), auth.len()][field];
+    let idx = choice(flen);
+    let bit = choice(8);
+    match field { 0 => ct[idx] ^= 1 << bit, 1 => aad[idx] ^= 1 << bit, 2 => nonce[idx] ^= 1 << bit, _ => auth[idx] ^= 1 << bit }
+    rt::note(format!("field {} byte {} bit {}", ["ciphertext", "aad(declared digest)", "nonce", "auth tag"][field], idx, bit));
     let m2 = EncryptedMessage::new(ct, aad, Nonce::from_data_ref(&nonce).unwrap(), AuthenticationTag::from_data_ref(&auth).unwrap());
     op("decrypt_subject (tampered)");
     let bare = match Envelope::try_from(m2) { Ok(b) => b, Err(_) => return Ok(()) }; // refusing to build it is fine
@@ -275,14 +276,16 @@ fn c13_corrupt() -> R {
     let CBORCase::Tagged(_, arr) = inner.as_case() else { return rt::viol("compressed encoding is not tagged", "") };
     let CBORCase::Array(v) = arr.as_case() else { return rt::viol("compressed encoding is not an array", "") };
     let mut v = v.clone();
-    let which = choice(6);
+    let CBORCase::ByteString(b) = v[2].as_case() else { return rt::viol("compressed data is not a byte string", "") };
+    let data: Vec<u8> = { let b: &[u8] = b.as_ref(); b.to_vec() };
+    let which = choice(5);
     match which {
-        0 | 1 | 2 => { let CBORCase::ByteString(b) = v[2].as_case() else { unreachable!() }; let b: &[u8] = b.as_ref(); let mut d = b.to_vec(); let n = d.len(); let idx = [0, n / 2, n - 1][which]; d[idx] ^= 0x10; v[2] = CBOR::to_byte_string(d); }
-        3 => { v[0] = 12345u32.into(); }                       // checksum
-        4 => { let CBORCase::ByteString(b) = v[2].as_case() else { unreachable!() }; let b: &[u8] = b.as_ref(); v[2] = CBOR::to_byte_string(&b[..b.len() / 2]); } // truncated
-        _ => { v[1] = 10_000u32.into(); }                      // declared size
+        0 => { let i = choice(data.len()); let mask = [0x01u8, 0x10, 0x80][choice(3)]; let mut d = data.clone(); d[i] ^= mask; v[2] = CBOR::to_byte_string(d); rt::note(format!("byte {} ^ {:#x}", i, mask)); }
+        1 => { let n = choice(data.len()); v[2] = CBOR::to_byte_string(&data[..n]); rt::note(format!("truncated to {}", n)); }
+        2 => { v[0] = [0u32, 12345, u32::MAX][choice(3)].into(); }              // checksum
+        3 => { v[1] = [0u32, 1, 10_000, 1 << 30][choice(4)].into(); }           // declared size
+        _ => { let mut d = data.clone(); d.extend_from_slice(&[0u8; 4]); v[2] = CBOR::to_byte_string(d); } // trailing garbage
     }
-    rt::note(format!("corruption {}", which));
     let bad = CBOR::to_tagged_value(200u64, CBOR::to_tagged_value(40003u64, CBOR::from(v))).to_cbor_data();
     op("uncompress (corrupt data)");
     match Envelope::try_from_cbor_data(bad) {
@@ -399,7 +402,7 @@ pub fn prop_c08() -> Prop {
                 bounds: "content A x declared digest of B, A and B every non-node shape of <=5 elements + 2 larger (wrapped node) x 0..2 assertions added to the encrypted element x direct / decoded x every digest order: decryption must fail whenever digest(A) != digest(B)",
                 api: &["Envelope::try_from(EncryptedMessage)", "decrypt_subject"] },
             Scenario { name: "tamper", f: c08_tamper, thorough_only: false,
-                bounds: "one bit flipped in ciphertext / declared digest (aad) / nonce / authentication tag at 4 positions each, bare and as node subject. Concrete catalogue: ChaCha20-Poly1305 is executed, not solver-decided; all other bit positions are outside",
+                bounds: "every single bit of the ciphertext, the declared digest (aad), the nonce and the authentication tag of one encrypted subject flipped (choice variables, exhaustively forked), bare and as node subject. ChaCha20-Poly1305 itself is executed, not solver-decided; multi-bit tampering is outside",
                 api: &["decrypt_subject", "Envelope::try_from(EncryptedMessage)"] },
         ],
         assumptions: COMMON_ASSUMPTIONS.to_vec(),
@@ -417,7 +420,7 @@ pub fn prop_c13() -> Prop {
                 bounds: "content A x declared digest of B over every shape of <=5 elements, bare / decoded / with an assertion; compressed element without digest",
                 api: &["Envelope::try_from(Compressed)", "uncompress", "uncompress_subject"] },
             Scenario { name: "corrupt", f: c13_corrupt, thorough_only: false,
-                bounds: "6 corruptions of the compressed bytes / checksum / size of one compressed node (concrete catalogue; DEFLATE and CRC-32 are executed, not solver-decided)",
+                bounds: "one compressed node: every byte of the DEFLATE stream XOR 3 masks, every truncation length, 3 checksums, 4 declared sizes, trailing garbage (choice variables, exhaustively forked; DEFLATE and CRC-32 themselves are executed, not solver-decided)",
                 api: &["try_from_cbor_data", "uncompress"] },
         ],
         assumptions: COMMON_ASSUMPTIONS.to_vec(),
